@@ -21,12 +21,13 @@ Pt(x) == <<x[1], x[2]>>
 SegSteps2(P, sg) == (ParamOf(P, Pt(sg.start)) + 1)..ParamOf(P, Pt(sg.stop))
 OnPath(P, sg) == ParamOf(P, Pt(sg.start)) >= 0 /\ ParamOf(P, Pt(sg.stop)) >= 0
 CellsOf(ww) == [n \in 1..Len(ww.cells) |-> ww.cells[n]]
+BendAt(P, k) == <<P[k][1] - P[k - 1][1], P[k][2] - P[k - 1][2]>> # <<P[k + 1][1] - P[k][1], P[k + 1][2] - P[k][2]>>
 SegsOfCell(sgs, n) == {k \in 1..Len(sgs) : sgs[k].linear = n - 1}
 RECURSIVE SumSegs(_, _, _)
 SumSegs(P, sgs, k) == IF k > Len(sgs) THEN 0 ELSE (ParamOf(P, Pt(sgs[k].stop)) - ParamOf(P, Pt(sgs[k].start))) + SumSegs(P, sgs, k + 1)
 
 Names == {"PreparedAgain", "Completed", "SegmentsOnPath", "StartBeforeEnd", "InsideCell", "IndexesNameCell", "TilesEachCell", "OrderedByStart",
-          "DistancesFollowPath", "LengthsAddUp", "PreparedValues", "DomainSharedEdge"}
+          "DistancesFollowPath", "DistancesMeet", "LengthsAddUp", "PreparedValues", "DomainSharedEdge"}
 
 PreparedOK(ww, e, o, off) ==
   LET v == ww.vars[VarByName(ww, e.var)]
@@ -72,6 +73,16 @@ Holds(name, ww, e) ==
                /\ (ParamOf(P, Pt(sgs[a].start)) < ParamOf(P, Pt(sgs[b].start)) => sgs[a].d0 < sgs[b].d0)
                /\ (ParamOf(P, Pt(sgs[a].stop)) < ParamOf(P, Pt(sgs[b].stop)) => sgs[a].d1 < sgs[b].d1)
                /\ (ParamOf(P, Pt(sgs[a].start)) < ParamOf(P, Pt(sgs[b].stop)) => sgs[a].d0 < sgs[b].d1)
+    [] name = "DistancesMeet" ->
+         \* round 13: where one segment stops at the very point at which another starts, the two distances along the path
+         \* are the same number (the code measures both with one function of the same point).  Metres are not modelled,
+         \* so "the same" is judged against the run itself: the gap is below a twentieth of the average lattice step in
+         \* metres.  A distance that cuts a bend between two path vertices inside one cell opens a gap of 0.18 steps or more.
+         (Ok(e) /\ Len(sgs) > 0 /\ \A k \in 1..Len(sgs) : OnPath(P, sgs[k])) =>
+            LET span == SetMax({ParamOf(P, Pt(sgs[k].stop)) : k \in 1..Len(sgs)}) - SetMin({ParamOf(P, Pt(sgs[k].start)) : k \in 1..Len(sgs)})
+                metres == SetMax({sgs[k].d1 : k \in 1..Len(sgs)}) - SetMin({sgs[k].d0 : k \in 1..Len(sgs)})
+            IN \A a, b \in 1..Len(sgs) : ParamOf(P, Pt(sgs[a].stop)) = ParamOf(P, Pt(sgs[b].start)) =>
+                  AbsI(sgs[a].d1 - sgs[b].d0) * 20 * span <= metres
     [] name = "LengthsAddUp" ->
          (Ok(e) /\ \A k \in 1..Len(sgs) : OnPath(P, sgs[k])) => SumSegs(P, sgs, 1) = Cardinality(ModelSteps(P, cells))
     [] name = "PreparedValues" -> (Ok(e) /\ e.var # "") => PreparedOK(ww, e, e.obs.ok.prepared, 0)
@@ -102,6 +113,12 @@ SeenOf(ww, e) ==
           (IF \E n \in 1..Len(cells) : InCell(P[1], cells[n]) THEN {"starts-inside"} ELSE {"starts-outside"}))
   \cup (IF \E n \in 1..Len(cells) : Cardinality(Runs(P, cells[n])) > 1 THEN {"re-enters-cell"} ELSE {})
   \cup (IF Len(e.path) > 2 THEN {"several-vertices"} ELSE {})
+  \cup (IF Ok(e) /\ (\A k \in 1..Len(e.obs.ok.segments) : OnPath(P, e.obs.ok.segments[k]))
+           /\ (\E a, b \in 1..Len(e.obs.ok.segments) : ParamOf(P, Pt(e.obs.ok.segments[a].stop)) = ParamOf(P, Pt(e.obs.ok.segments[b].start)))
+        THEN {"segments-meet"} ELSE {})
+  \cup (IF \E n \in 1..Len(cells), k, k2 \in 2..(Len(P) - 1) :
+                 /\ k < k2 /\ BendAt(P, k) /\ BendAt(P, k2) /\ \A q \in (k - 1)..k2 : StepIn(P, q, cells[n])
+        THEN {"bends-inside-cell"} ELSE {})
   \cup (IF Ok(e) /\ "prepared2" \in DOMAIN e.obs.ok /\ Len(e.obs.ok.segments) > 0 THEN {"prepared-again"} ELSE {})
   \cup (IF \E k \in 1..(Len(e.path) - 1) : e.path[k][1] # e.path[k + 1][1] /\ e.path[k][2] # e.path[k + 1][2] THEN {"diagonal"} ELSE {})
 
